@@ -99,6 +99,8 @@ class HistogramND(HistogramBase):
     ) -> HistogramBase:
         # TODO: Implement mask?
 
+        if isinstance(index, np.integer):
+            index = int(index)
         if index == slice(None) and not force_copy:
             return self
 
@@ -143,7 +145,7 @@ class HistogramND(HistogramBase):
         Always returns a new object.
         """
         # TODO: Enable views
-        if isinstance(index, (int, slice)):
+        if isinstance(index, (int, np.integer, slice)):
             return self.select(0, index)
         if isinstance(index, tuple):
             if len(index) > self.ndim:
@@ -152,7 +154,7 @@ class HistogramND(HistogramBase):
                 )
 
             # Scalar case => return (bin edges), (frequency)
-            if len(index) == self.ndim and all((isinstance(i, int) for i in index)):
+            if len(index) == self.ndim and all((isinstance(i, (int, np.integer)) for i in index)):
                 return (
                     tuple(
                         (
